@@ -88,18 +88,30 @@ func c17Scenarios(c *fw.Ctx) []*Scenario {
 	fetchSets = append(fetchSets,
 		[]fq{{0, c17Now - 2, c17Now}, {0, c17Now - 7, c17Now}},
 		[]fq{{2, c17Now - 8, c17Now}, {0, c17Now - 6, c17Now}, {2, c17Now - 16, c17Now}})
+	fetchNames = append(fetchNames, "F-long-windows")
+	fetchSets = append(fetchSets, []fq{{0, c17Now - 400, c17Now}, {0, c17Now - 650, c17Now - 300}})
 	for fi, qs := range fetchSets {
 		name, qs := fetchNames[fi], qs
-		neverWritten := fi >= 4
+		neverWritten := fi == 4 || fi == 5
+		long := fi == 6
 		bound := b2
 		if len(qs) == 3 {
 			bound = b3
 		}
+		if long {
+			bound = 1 // ~1400 scheduling points per execution
+		}
 		out = append(out, &Scenario{Name: name, Bound: bound, Make: func() ([]func(), func(*vrt.Sched) (string, string, string)) {
+			l := l
 			vrt.SetPagesize(16)
 			rings := c17Rings(l, 0)
 			if neverWritten {
 				rings = EmptyRings(l)
+			}
+			if long { // 700 + 14 slots over three real pages; windows of 400 and 350 slots
+				l = wsp.Layout{Archs: LP.Archs, Method: 2, XFF: 0}
+				vrt.SetPagesize(4096)
+				rings = c17Rings(l, 1)
 			}
 			p := filepath.Join(root, "shared.wsp")
 			(&BFile{L: l, Rings: rings}).Write(p)
